@@ -9,7 +9,7 @@ from ..core import Prop, Violation
 from ..lib import SweepOut
 
 BOM = b"\xef\xbb\xbf"
-REPL = b'\\"u[{,:-e.\x00\xff]}0t/'
+REPL = b'\\"u[{,:-e.\x00\xff]}0t/*xXinN+\''
 
 
 def net_depth(opener):
